@@ -24,8 +24,9 @@ def make_jobs(tier, seed, build):
     nmax = 4 if tier == "quick" else 5
     for gname in GRAMMARS:
         g = CORPUS[gname]
-        for n in range(0, nmax + 1):
-            for shape in tok.all_shapes(n, g.decl):
+        for shape in tok.all_shapes_by_words(nmax, g.decl):
+            if True:
+                n = len(shape)
                 has_dd = "dd" in shape
                 # without `--` the strictness clauses still matter for the strict/non_strict grammars
                 if not has_dd and (gname not in ("p3", "p4") or n > 3):
@@ -43,4 +44,4 @@ def run_job(job, build):
 def finish(results, jobs, build, out, tier, seed, wall):
     nmax = 4 if tier == "quick" else 5
     return finish_tok(PROP, results, jobs, build, out, tier, seed, wall, Oracle(), CORPUS,
-                      {"items": "0..=%d (shapes containing `--`; strict grammars also without it, <= 3 items)" % nmax, "grammars": len(GRAMMARS)})
+                      {"argv_words": "0..=%d (shapes containing `--`; strict grammars also without it, <= 3 words)" % nmax, "grammars": len(GRAMMARS)})
